@@ -139,3 +139,25 @@ Theorem C12_spine_nounlock_refuted :
     snd (sess_step_nounlock (fst (sess_run_nounlock empty_session h)) (ISpine k e))
     <> snd (sess_step_nounlock empty_session (ISpine k (chain (defs_of h) e))).
 Proof. exact spine_nounlock_refuted_lemma. Qed.
+
+(* Copies of thunk data that keep the thunk's state (ThunkData's derived Clone at the pinned
+   commit, reached through Thunk::saturate / with_pos_idx when a record merge meets a field that
+   is being evaluated) break the property: the history
+     let o = { r = { y = std.seq m (1 + true) }, m = r & { y = 2 } } ; o.r.y (type error) ; o.m.y
+   ends with an infinite recursion although the stand-alone program raises the type error.  The
+   machine all the theorems above are about creates such copies Suspended (the repair of
+   proposed/C12-saturate-state.diff). *)
+Theorem C12_session_equiv_thunk_copy_refuted :
+  exists h k e n c,
+    snd (sess_step_satcopy (fst (sess_run_satcopy empty_session h)) (IEval k e)) = OErr EInfRec /\
+    spec_run n (defs_of h) e = Err c.
+Proof. exact session_equiv_thunk_copy_refuted_lemma. Qed.
+
+(* ... and make the result of ONE evaluation depend on the order of the operands of `+`. *)
+Theorem C12_thunk_copy_order_refuted :
+  exists k n,
+    snd (sess_step_satcopy empty_session (IEval k (copy_single false))) = OErr EInfRec /\
+    snd (sess_step_satcopy empty_session (IEval k (copy_single true))) = OOk (ONum 10) /\
+    spec_run n [] (copy_single false) = Val (VNum 10) /\
+    snd (sess_step empty_session (IEval k (copy_single false))) = OOk (ONum 10).
+Proof. exact thunk_copy_order_refuted_lemma. Qed.
